@@ -310,6 +310,11 @@ def run_rect(case, res):
     """axis-aligned rectangle at rotation 0: exactly the (floor(W/s)+1) x (floor(H/s)+1) lattice"""
     W, H, s, ox, oy = case["W"], case["H"], case["spacing"], case["ox"], case["oy"]
     lot = [[ox, oy], [ox + W, oy], [ox + W, oy + H], [ox, oy + H]]
+    if case.get("extra"):
+        # a survey point in the middle of a straight side (the outline is the same rectangle, listed with five corners)
+        side, frac = case["extra"]
+        a, b = lot[side], lot[(side + 1) % 4]
+        lot = lot[: side + 1] + [[a[0] + frac * (b[0] - a[0]), a[1] + frac * (b[1] - a[1])]] + lot[side + 1:]
     res["evals"] += 1
     out, err = with_horizon(gen_once, lot, s, 0.0)
     if err is not None:
@@ -802,6 +807,8 @@ def main(run: core.Run, only=None):
                 for ox, oy in ((0.0, 0.0), (7.5, 3.0)):
                     rects.append({"kind": "rect", "W": f * s, "H": other, "spacing": s, "ox": ox, "oy": oy})
                     rects.append({"kind": "rect", "W": other, "H": f * s, "spacing": s, "ox": ox, "oy": oy})
+    rects += [dict(r, extra=[side, frac]) for r in rects[:: (7 if quick else 2)] if r["W"] >= 2 * r["spacing"] and r["H"] >= 2 * r["spacing"]
+              for side in (0, 1, 2, 3) for frac in (0.5, 0.37)]
     run.drive(rects, family="rectangles")
     opts = []
     windows = [(-90.0, 90.0, 15.0), (-90.0, 0.0, 5.0), (0.0, 90.0, 15.0), (-30.0, 30.0, 5.0), (0.0, 10.0, 4.0), (-10.0, 10.0, 3.0)]
